@@ -240,6 +240,9 @@ def run(ctx):
     # ---- R10 ---------------------------------------------------------------------
     _agreement(ctx)
 
+    # ---- R11 ---------------------------------------------------------------------
+    _probe_handlers(ctx)
+
     # ---- R6 ----------------------------------------------------------------------
     ctx.rule('C11.R6', 'no generated wrapper puts the call-through (or a validator invocation) inside a try body: a '
              'user exception propagates unchanged; the only try statements are the PEP 525 forwarding handlers')
@@ -437,3 +440,34 @@ def _agreement(ctx):
             ctx.ob('C11.R10', f'agreement:{o.rule}:{o.key}', o.where, o.desc, False, o.detail)
     ctx.ob('C11.R10', 'agreement:obligations-imported', 'beartype/_check/error/errmain.py:0',
            f'{n} obligations on the agreement of check and explanation hold', bad == 0 and n >= 200, f'{bad} of {n} fail')
+
+
+def _probe_handlers(ctx):
+    """R11: the isinstance()/issubclass() probes of a user-supplied class run the user's metaclass hooks at decoration time;
+    the tester and the raiser built on one probe must catch the same — everything (sibling agreement)."""
+    repo = ctx.repo
+    Q = 'beartype._util.cls.pep.clspep3119'
+    m = repo.mod(Q)
+    ctx.rule('C11.R11', 'probing whether a user class can be passed to isinstance() / issubclass() calls the user\'s metaclass '
+             'hooks while the hint is validated: every probe site of beartype._util.cls.pep.clspep3119 (a call of the probe '
+             'callable handed in as a parameter) sits in a try whose handler catches Exception, and the tester and the '
+             'raiser siblings catch the same classes — otherwise the tester says "not checkable" while the raiser lets a bare '
+             'ValueError out instead of the decoration-time beartype exception')
+    sites = []
+    for fn in [x for x in ast.walk(m.tree) if isinstance(x, ast.FunctionDef)]:
+        ps = set(params_of(fn))
+        for t in [x for x in walk_shallow(fn) if isinstance(x, ast.Try)]:
+            probes = [c for st in t.body for c in ast.walk(st) if isinstance(c, ast.Call) and isinstance(c.func, ast.Name) and c.func.id in ps]
+            if not probes:
+                continue
+            caught = sorted({(dotted(h.type) if h.type is not None else 'BaseException') for h in t.handlers} |
+                            {dotted(e) for h in t.handlers if isinstance(h.type, ast.Tuple) for e in h.type.elts})
+            sites.append((fn, t, caught))
+    for fn, t, caught in sites:
+        broad = any(c in ('Exception', 'BaseException') for c in caught)
+        ctx.ob('C11.R11', f'probe:{qualname_of(fn)}:catches-everything', m.where(t),
+               'the probe of the user\'s metaclass hook catches every exception it may raise', broad, f'catches {caught}')
+    kinds = {tuple(c) for _, _, c in sites}
+    ctx.ob('C11.R11', 'probe:siblings-agree', m.where(m.tree.body[0]), 'tester and raiser catch the same exception classes',
+           len(kinds) <= 1, f'{[(qualname_of(f), c) for f, _, c in sites]}')
+    ctx.floor('C11.R11', len(sites), 2, 'probe sites')
